@@ -100,11 +100,6 @@ def c18_r2(ctx):
                 ctx.check(s.id not in g.reach_after(t), key(fi, f"strip after {what} escape"),
                           f"leading underscores are stripped after the {what} escape: `_class` (no snake-casing) becomes `class`, `_model_dump` becomes `model_dump`", fi.loc(s.ast),
                           okmsg=f"underscore strip happens before the {what} escape")
-        # escapes append a trailing underscore to the processed name
-        for t, what in ((kwt[0], "keyword"), (rsv[0], "reserved")):
-            succ = [g.nodes[j] for j, lab in g.succ[t.id] if lab == "true"]
-            good = len(succ) == 1 and isinstance(succ[0].ast, ast.AugAssign) and norm(succ[0].ast) == "processed_name += '_'"
-            ctx.check(good, key(fi, f"{what} suffix"), f"{what} names are not escaped by a trailing underscore", fi.loc(), okmsg=f"{what} names get a trailing underscore")
     # fallback for all-underscore names
     o = Interp(fi, lambda e: (True if norm(strip_pre(e)).startswith("set(name) == {'_'}") or norm(e) == "not processed_name" else False if norm(e) in ("convert_to_snake_case", "plugin_manager", "trim_leading_underscore", "handle_pydantic_resrved_field_names") else None)).run()
     vals = {norm(x.value) for x in o if x.kind == "return"}
